@@ -1,0 +1,8 @@
+//go:build !verif
+
+// Package verifhook provides yield points for schedule-directed verification.
+// Without the "verif" build tag every call is an empty, inlinable function.
+package verifhook
+
+// Yield marks a named point of interest. It does nothing in normal builds.
+func Yield(point string) {}
